@@ -144,6 +144,12 @@ type Prover struct {
 	moveBuffer [100]tak.Move
 
 	progress <-chan time.Time
+
+	// depthLimited records that MaxDepth cut the tree somewhere. Nodes
+	// beyond the limit are labelled disproven to bound the search, so a
+	// disproof found while this is set only shows that there is no win
+	// within MaxDepth plies.
+	depthLimited bool
 }
 
 func New(cfg Config) *Prover {
@@ -163,6 +169,7 @@ type ProofResult struct {
 func (p *Prover) Prove(ctx context.Context, pos *tak.Position) (ProofResult, PNStats) {
 	p.start = time.Now()
 	p.stats = PNStats{}
+	p.depthLimited = false
 	p.position = pos
 	p.ctx = ctx
 	if p.cfg.MaxDepth == 0 {
@@ -200,8 +207,13 @@ func (p *Prover) Prove(ctx context.Context, pos *tak.Position) (ProofResult, PNS
 
 	}
 
+	result := p.root.value
+	if result == EvalFalse && p.depthLimited {
+		result = EvalUnknown
+	}
+
 	return ProofResult{
-		Result:   p.root.value,
+		Result:   result,
 		Duration: time.Since(p.start),
 		Proof:    p.root.proof(),
 		Disproof: p.root.disproof(),
@@ -342,6 +354,7 @@ func (p *Prover) checkRepetition(n *node) bool {
 func (p *Prover) evaluate(node *node) {
 	if p.depth() > p.cfg.MaxDepth {
 		node.value = EvalFalse
+		p.depthLimited = true
 		return
 	}
 
